@@ -1,6 +1,6 @@
 (* C20 — lemmas and proofs about the glue model (C20_Model.v) against the abstract statements (C20_Spec.v). *)
 From Coq Require Import List ZArith QArith Bool Lia Arith.
-From DuneV Require Import C20_Model C20_Spec.
+From DuneV Require Import Params_gen C20_Model C20_Spec.
 Import ListNotations.
 Local Open Scope nat_scope.
 
@@ -364,6 +364,33 @@ Proof.
     try (apply c20_wf_npv_inplace; assumption); simpl; assumption.
 Qed.
 
+(* iteration by the sequence protocol: __getitem__(0), (1), ... stops with IndexError exactly at n and yields the entries in order *)
+Lemma c20_skipn_nth_cons : forall (l : list Q) i, i < length l -> skipn i l = nth i l 0%Q :: skipn (S i) l.
+Proof. induction l as [|a l IH]; intros [|i] Hi; simpl in *; try lia; auto. apply IH. lia. Qed.
+
+Lemma P_iter_loop : forall fuel k H cells i, i <= length cells -> length cells - i < fuel ->
+  c20_iter_loop fuel k H cells i = Some (skipn i (c20_read_all H cells)).
+Proof.
+  induction fuel as [|f IH]; intros k H cells i Hi Hf; [lia|]. simpl.
+  destruct (P_index k (length cells) (Z.of_nat i)) as [-> _]. unfold c20_index_res.
+  destruct (Nat.eq_dec i (length cells)) as [->|Hne].
+  - destruct (P_spec_index_defined (length cells) (Z.of_nat (length cells))) as [Hd _].
+    destruct (c20_spec_index (length cells) (Z.of_nat (length cells))) eqn:E.
+    + exfalso. assert (Some n <> None) by discriminate. apply Hd in H0. lia.
+    + rewrite skipn_all2; [reflexivity|]. unfold c20_read_all. rewrite map_length. lia.
+  - destruct (P_spec_index_defined (length cells) (Z.of_nat i)) as [_ [H1 _]]. rewrite H1 by lia. rewrite Nat2Z.id.
+    rewrite IH by lia.
+    rewrite (c20_skipn_nth_cons (c20_read_all H cells) i) by (unfold c20_read_all; rewrite map_length; lia).
+    do 2 f_equal. unfold c20_read_all.
+    rewrite (nth_indep _ 0%Q (c20_read H 0)) by (rewrite map_length; lia). now rewrite map_nth.
+Qed.
+
+Lemma P_iter : forall k H cells, c20_iter_loop (S (length cells)) k H cells 0 = Some (c20_read_all H cells).
+Proof. intros. rewrite P_iter_loop by lia. reflexivity. Qed.
+
+Arguments c20_iter_loop : simpl never.
+Arguments c20_construct_buffer : simpl never.
+
 Lemma P_step_wf : forall cfg st op, c20_wf st -> c20_wf (fst (c20_step cfg st op)).
 Proof.
   intros cfg st op Hwf.
@@ -382,6 +409,9 @@ Proof.
           destruct (c20_slice_indices n a b c) eqn:E; simpl; auto;
           apply P_slice_range in E as [E1 E2];
           destruct (c20_slice_cells_ok _ _ _ Hok E1 E2); apply c20_wf_push_shared; auto
+      | |- context [c20_construct_buffer ?a ?b ?c ?d ?e] =>
+          destruct (c20_construct_buffer a b c d e); simpl; auto; apply c20_wf_push_new; assumption
+      | |- context [c20_iter_loop ?a ?b ?c ?d ?e] => destruct (c20_iter_loop a b c d e); simpl; auto
       | |- context [c20_getitem_index ?k ?n ?i] => destruct (c20_getitem_index k n i); simpl; auto
       | |- context [c20_setitem_index ?c ?k ?n ?i] =>
           destruct (c20_setitem_index c k n i); simpl; auto;
@@ -675,7 +705,7 @@ Section Ops.
   Proof.
     repeat split; intros; try op_tac.
     simpl. unfold c20_on_any. rewrite Er. subst x. unfold c20_vals, c20_size. now rewrite c20_read_all_length.
-    simpl. unfold c20_on_any. rewrite Er. reflexivity.
+    simpl. unfold c20_on_any. rewrite Er. unfold c20_size. rewrite P_iter. reflexivity.
   Qed.
 End Ops.
 
@@ -946,8 +976,416 @@ Lemma P_api_misc : forall cfg st r o, nth_error (c20_regs st) r = Some o -> c20_
   (forall l, c20_step cfg st (C20_NeL r l) = (st, C20_ObsBool (negb (c20_veq (c20_vals st o) (c20_spec_construct (c20_size o) l))))) /\
   (forall l, c20_step cfg st (C20_ISubL r l) = c20_inplace st o (c20_vsub (c20_vals st o) (c20_spec_construct (c20_size o) l))) /\
   (forall l, c20_step cfg st (C20_AssignL r l) = c20_inplace st o (c20_spec_construct (c20_size o) l)) /\
-  c20_step cfg st C20_NewBadBuffer = (st, C20_ObsExc C20_ValueError).
+  (forall fok nd, fok = false \/ nd <> 1 -> c20_step cfg st (C20_NewBadBuffer fok nd) = (st, C20_ObsExc C20_ValueError)).
 Proof.
   intros cfg st r o E Hk. repeat split; intros; simpl; unfold c20_on_vec; rewrite ?E, ?Hk, ?P_construct; try reflexivity.
-  rewrite H. reflexivity.
+  - rewrite H. reflexivity.
+  - unfold c20_construct_buffer. destruct fok; simpl; [|reflexivity].
+    destruct H as [H|H]; [discriminate|].
+    change c20_param_buffer_ndim with 1. destruct (Nat.eqb_spec nd 1); [contradiction|reflexivity].
+Qed.
+
+(* ================================================================== proof-deepening round *)
+(* ------------------------------------------------------------------ the buffer constructor (stride loop) *)
+Lemma c20_cbuf_loop_eq : forall cnt self H bi x i,
+  (forall j, i <= j < i + cnt -> c20_read H (Z.to_nat (c20_bi_ptr bi + Z.of_nat j * c20_bi_stride bi)) = nth j x 0%Q) ->
+  c20_cbuf_loop self H bi i cnt = c20_construct_loop self x i cnt.
+Proof.
+  induction cnt as [|c IH]; intros self H bi x i Hj; simpl; auto.
+  rewrite Hj by lia. apply IH. intros j Hjr. apply Hj. lia.
+Qed.
+
+(* FieldVector_n( buffer ): for EVERY strided buffer inside the heap (any stride, also negative), any n and any length:
+   the first n logical entries of the buffer, zero filled; other formats / dimensions are rejected with ValueError *)
+Lemma P_construct_buffer : forall n H cells, c20_strided cells -> Forall (fun a => a < length H) cells ->
+  c20_construct_buffer n H true 1 (c20_buffer_info cells) = C20_Ok (c20_spec_construct n (c20_read_all H cells)) /\
+  (forall nd bi, nd <> 1 -> c20_construct_buffer n H true nd bi = C20_Exc C20_ValueError) /\
+  (forall nd bi, c20_construct_buffer n H false nd bi = C20_Exc C20_ValueError).
+Proof.
+  intros n H cells Hs Hr. split; [|split].
+  - unfold c20_construct_buffer. simpl negb. change c20_param_buffer_ndim with 1. simpl Nat.eqb. cbv iota. f_equal.
+    rewrite <- P_construct. unfold c20_construct. rewrite c20_read_all_length.
+    replace (c20_bi_size (c20_buffer_info cells)) with (length cells) by reflexivity.
+    apply c20_cbuf_loop_eq. intros j Hj.
+    assert (Hjl : j < length cells) by (pose proof (Nat.le_min_r n (length cells)); lia).
+    unfold c20_strided in Hs. rewrite <- (Hs j Hjl). rewrite Nat2Z.id. symmetry. apply c20_nth_read_all. exact Hjl.
+  - intros nd bi Hnd. unfold c20_construct_buffer. simpl negb. change c20_param_buffer_ndim with 1.
+    destruct (Nat.eqb_spec nd 1); [contradiction|reflexivity].
+  - intros. reflexivity.
+Qed.
+
+(* ------------------------------------------------------------------ every object of every run is a strided array *)
+Lemma P_strided_seq : forall base n, c20_strided (seq base n).
+Proof.
+  intros base n.
+  replace (seq base n) with (map (fun k => Z.to_nat (Z.of_nat base + Z.of_nat k * 1)) (seq 0 n)).
+  - apply P_strided_arith. intros; lia.
+  - clear. revert base. induction n as [|n IH]; intros base; simpl; auto. f_equal; [lia|].
+    rewrite <- seq_shift, map_map. rewrite <- (IH (S base)). apply map_ext. intros; lia.
+Qed.
+
+(* a slice of a strided array is a strided array (start/stop/step arbitrary, the parent's stride arbitrary) *)
+Lemma P_slice_strided_gen : forall cells a b c idx, c20_strided cells ->
+  c20_slice_indices (length cells) a b c = C20_Ok idx -> c20_strided (map (fun j => nth j cells 0) idx).
+Proof.
+  intros cells a b c idx Hs E. apply c20_slice_form in E as [A [st [len [-> Hr]]]].
+  unfold c20_strided in Hs. set (bi := c20_buffer_info cells) in *.
+  rewrite map_map.
+  replace (map (fun k : nat => nth (Z.to_nat (A + Z.of_nat k * st)) cells 0) (seq 0 len))
+    with (map (fun k : nat => Z.to_nat ((c20_bi_ptr bi + A * c20_bi_stride bi) + Z.of_nat k * (st * c20_bi_stride bi))%Z) (seq 0 len)).
+  - apply P_strided_arith. intros k Hk. specialize (Hr k Hk).
+    assert (Hj : Z.to_nat (A + Z.of_nat k * st) < length cells) by lia.
+    specialize (Hs _ Hj). rewrite Z2Nat.id in Hs by lia.
+    replace (c20_bi_ptr bi + A * c20_bi_stride bi + Z.of_nat k * (st * c20_bi_stride bi))%Z
+      with (c20_bi_ptr bi + (A + Z.of_nat k * st) * c20_bi_stride bi)%Z by ring.
+    rewrite <- Hs. lia.
+  - apply map_ext_in. intros k Hk. apply in_seq in Hk. specialize (Hr k ltac:(lia)).
+    assert (Hj : Z.to_nat (A + Z.of_nat k * st) < length cells) by lia.
+    specialize (Hs _ Hj). rewrite Z2Nat.id in Hs by lia.
+    replace (c20_bi_ptr bi + A * c20_bi_stride bi + Z.of_nat k * (st * c20_bi_stride bi))%Z
+      with (c20_bi_ptr bi + (A + Z.of_nat k * st) * c20_bi_stride bi)%Z by ring.
+    rewrite <- Hs. apply Nat2Z.id.
+Qed.
+
+Definition c20_all_strided (st : c20_state) : Prop := Forall (fun o => c20_strided (c20_cells o)) (c20_regs st).
+Definition c20_inv (st : c20_state) : Prop := c20_wf st /\ c20_all_strided st.
+
+Lemma c20_regs_step_cases : forall cfg st op,
+  let st' := fst (c20_step cfg st op) in
+  c20_regs st' = c20_regs st \/
+  (exists k (vals : list Q), c20_regs st' = c20_regs st ++ [{| c20_k := k; c20_cells := seq (length (c20_H st)) (length vals) |}]) \/
+  (exists k o, In o (c20_regs st) /\ c20_regs st' = c20_regs st ++ [{| c20_k := k; c20_cells := c20_cells o |}]) \/
+  (exists k o a b c idx, In o (c20_regs st) /\ c20_slice_indices (c20_size o) a b c = C20_Ok idx /\
+       c20_regs st' = c20_regs st ++ [{| c20_k := k; c20_cells := map (fun j => nth j (c20_cells o) 0) idx |}]).
+Proof.
+  intros cfg st op.
+  assert (Hnew : forall k vals, let st' := fst (c20_push_new st k vals) in
+     c20_regs st' = c20_regs st \/
+     (exists k (vals : list Q), c20_regs st' = c20_regs st ++ [{| c20_k := k; c20_cells := seq (length (c20_H st)) (length vals) |}]) \/
+     (exists k o, In o (c20_regs st) /\ c20_regs st' = c20_regs st ++ [{| c20_k := k; c20_cells := c20_cells o |}]) \/
+     (exists k o a b c idx, In o (c20_regs st) /\ c20_slice_indices (c20_size o) a b c = C20_Ok idx /\
+       c20_regs st' = c20_regs st ++ [{| c20_k := k; c20_cells := map (fun j => nth j (c20_cells o) 0) idx |}]))
+    by (intros k vals; right; left; exists k, vals; reflexivity).
+  destruct op; simpl; try (apply Hnew);
+    unfold c20_on_vec, c20_on_any, c20_on_npv, c20_with_operand, c20_setslice, c20_npv_inplace, c20_inplace;
+    repeat match goal with
+      | |- context [nth_error (c20_regs st) ?r] => let E := fresh "E" in destruct (nth_error (c20_regs st) r) eqn:E; simpl; auto
+      | |- context [match c20_k ?o with _ => _ end] => destruct (c20_k o); simpl; auto
+      | |- context [c20_operand ?a ?b ?c] => destruct (c20_operand a b c); simpl; auto
+      | |- context [c20_npv_cells ?a ?b ?c] => destruct (c20_npv_cells a b c); simpl; auto
+      | |- context [c20_construct_buffer ?a ?b ?c ?d ?e] => destruct (c20_construct_buffer a b c d e); simpl; auto
+      | |- context [c20_iter_loop ?a ?b ?c ?d ?e] => destruct (c20_iter_loop a b c d e); simpl; auto
+      | |- context [c20_getitem_index ?k ?n ?i] => destruct (c20_getitem_index k n i); simpl; auto
+      | |- context [c20_setitem_index ?c ?k ?n ?i] => destruct (c20_setitem_index c k n i); simpl; auto
+      | |- context [if ?c then _ else _] => destruct c; simpl; auto
+      end;
+    try (apply Hnew).
+  all: try match goal with |- context [c20_slice_indices ?n ?x ?y ?z] =>
+         let Ei := fresh "Ei" in destruct (c20_slice_indices n x y z) eqn:Ei; simpl; auto end.
+  all: repeat match goal with |- context [if ?c then _ else _] => destruct c; simpl; auto end.
+  all: try (left; reflexivity).
+  all: try (right; right; left; eexists _, _; split; [eapply nth_error_In; eauto | reflexivity]).
+  all: try (right; right; right; eexists _, _, _, _, _, _; split; [eapply nth_error_In; eauto | split; [eassumption | reflexivity]]).
+Qed.
+
+Lemma P_step_inv : forall cfg st op, c20_inv st -> c20_inv (fst (c20_step_reg cfg st op)).
+Proof.
+  intros cfg st op [Hwf Hs]. split; [now apply P_step_reg_wf|].
+  unfold c20_step_reg.
+  assert (Hstep : c20_all_strided (fst (c20_step cfg st op))).
+  { unfold c20_all_strided in *. rewrite Forall_forall in Hs.
+    destruct (c20_regs_step_cases cfg st op) as [E|[[k [vals E]]|[[k [o [Ho E]]]|[k [o [a [b [c [idx [Ho [Ei E]]]]]]]]]]]; rewrite E.
+    - now apply Forall_forall.
+    - apply Forall_app. split; [now apply Forall_forall|]. constructor; [|constructor]. simpl. apply P_strided_seq.
+    - apply Forall_app. split; [now apply Forall_forall|]. constructor; [|constructor]. simpl. now apply Hs.
+    - apply Forall_app. split; [now apply Forall_forall|]. constructor; [|constructor]. simpl.
+      eapply P_slice_strided_gen; [now apply Hs | exact Ei]. }
+  destruct (c20_step cfg st op) as [st' ob]. simpl in *. destruct ob; simpl; auto.
+  destruct (nth_error (c20_regs st') r) eqn:E; simpl; auto.
+  unfold c20_all_strided in *. simpl. apply Forall_app. split; auto. constructor; [|constructor].
+  rewrite Forall_forall in Hstep. apply Hstep. eapply nth_error_In; eauto.
+Qed.
+
+Lemma P_run_inv : forall cfg ops st, c20_inv st -> c20_inv (fst (c20_run cfg st ops)).
+Proof.
+  intros cfg ops. induction ops as [|op rest IH]; intros st Hi; simpl; auto.
+  pose proof (P_step_inv cfg st op Hi) as H1. destruct (c20_step_reg cfg st op) as [st' ob].
+  specialize (IH st' H1). destruct (c20_run cfg st' rest). simpl in *. assumption.
+Qed.
+
+Lemma P_init_inv : c20_inv c20_init.
+Proof. split; constructor. Qed.
+
+(* in every state a script can reach: hypotheses-free versions of C20_numpy_view and of the buffer constructor *)
+Lemma P_reach_obj : forall cfg ops r o, let st := fst (c20_run cfg c20_init ops) in
+  nth_error (c20_regs st) r = Some o -> c20_obj_ok (c20_H st) o /\ c20_strided (c20_cells o).
+Proof.
+  intros cfg ops r o st E. destruct (P_run_inv cfg ops c20_init P_init_inv) as [Hwf Hs]. fold st in Hwf, Hs.
+  apply nth_error_In in E. unfold c20_wf, c20_all_strided in *. rewrite Forall_forall in Hwf, Hs. split; auto.
+Qed.
+
+Lemma P_construct_buffer_run : forall cfg ops n r o, let st := fst (c20_run cfg c20_init ops) in
+  nth_error (c20_regs st) r = Some o ->
+  c20_step cfg st (C20_NewFromBuf n r) = c20_push_new st C20_Vec (c20_spec_construct n (c20_vals st o)).
+Proof.
+  intros cfg ops n r o st E. destruct (P_reach_obj cfg ops r o E) as [[_ Hr] Hs]. fold st in Hr. clearbody st.
+  pose proof (proj1 (P_construct_buffer n (c20_H st) (c20_cells o) Hs Hr)) as Hcb.
+  unfold c20_construct_buffer in Hcb. simpl in Hcb. injection Hcb as Hcb.
+  simpl. unfold c20_on_any. rewrite E. unfold c20_vals. rewrite <- Hcb. reflexivity.
+Qed.
+
+(* ------------------------------------------------------------------ out-of-place operations never write *)
+Lemma c20_heap_step_cases : forall cfg st op, c20_mutating op = false ->
+  c20_H (fst (c20_step cfg st op)) = c20_H st \/ exists vals, c20_H (fst (c20_step cfg st op)) = c20_H st ++ vals.
+Proof.
+  intros cfg st op Hm.
+  destruct op; try discriminate Hm; simpl;
+    unfold c20_on_vec, c20_on_any, c20_on_npv, c20_with_operand, c20_push_new, c20_push_shared, c20_alloc;
+    repeat match goal with
+      | |- context [nth_error (c20_regs st) ?r] => destruct (nth_error (c20_regs st) r); simpl; auto
+      | |- context [match c20_k ?o with _ => _ end] => destruct (c20_k o); simpl; auto
+      | |- context [c20_operand ?a ?b ?c] => destruct (c20_operand a b c); simpl; auto
+      | |- context [c20_npv_cells ?a ?b ?c] => destruct (c20_npv_cells a b c); simpl; auto
+      | |- context [c20_construct_buffer ?a ?b ?c ?d ?e] => destruct (c20_construct_buffer a b c d e); simpl; auto
+      | |- context [c20_iter_loop ?a ?b ?c ?d ?e] => destruct (c20_iter_loop a b c d e); simpl; auto
+      | |- context [c20_getitem_index ?k ?n ?i] => destruct (c20_getitem_index k n i); simpl; auto
+      | |- context [c20_slice_indices ?n ?x ?y ?z] => destruct (c20_slice_indices n x y z); simpl; auto
+      | |- context [if ?c then _ else _] => destruct c; simpl; auto
+      end;
+    try (left; reflexivity);
+    try (right; eexists; reflexivity).
+Qed.
+
+(* every operation that is not an in-place one leaves the entries of EVERY existing object unchanged (and only adds registers) *)
+Lemma P_pure_frame : forall cfg st op p, c20_wf st -> c20_mutating op = false -> In p (c20_regs st) ->
+  c20_vals (fst (c20_step_reg cfg st op)) p = c20_vals st p.
+Proof.
+  intros cfg st op p Hwf Hm Hp.
+  assert (E : c20_vals (fst (c20_step cfg st op)) p = c20_vals st p).
+  { unfold c20_vals. destruct (c20_heap_step_cases cfg st op Hm) as [->|[vals ->]]; [reflexivity|].
+    apply c20_read_all_app. unfold c20_wf in Hwf. rewrite Forall_forall in Hwf. now destruct (Hwf p Hp). }
+  unfold c20_step_reg. destruct (c20_step cfg st op) as [st' ob]. simpl in E.
+  destruct ob; simpl; auto. destruct (nth_error (c20_regs st') r); simpl; auto.
+Qed.
+
+(* ------------------------------------------------------------------ in-place operations write only through their target *)
+Lemma c20_slice_cells_in : forall o a b c idx x, c20_slice_indices (c20_size o) a b c = C20_Ok idx ->
+  In x (map (fun j => nth j (c20_cells o) 0) idx) -> In x (c20_cells o).
+Proof.
+  intros o a b c idx x Ei Hin. apply P_slice_range in Ei as [_ Hr]. rewrite Forall_forall in Hr.
+  apply in_map_iff in Hin as [j [<- Hj]]. apply nth_In. now apply Hr.
+Qed.
+
+Lemma P_mutating_frame : forall cfg st op r o, c20_inv st -> cfg_npv_stride cfg = true ->
+  c20_target op = Some r -> nth_error (c20_regs st) r = Some o ->
+  let st' := fst (c20_step_reg cfg st op) in
+  c20_regs st' = c20_regs st /\ length (c20_H st') = length (c20_H st) /\
+  forall a, ~ In a (c20_cells o) -> c20_read (c20_H st') a = c20_read (c20_H st) a.
+Proof.
+  intros cfg st op r o [Hwf Hs] Hc Ht E.
+  assert (Hok : c20_obj_ok (c20_H st) o /\ c20_strided (c20_cells o)).
+  { apply nth_error_In in E. unfold c20_wf, c20_all_strided in *. rewrite Forall_forall in Hwf, Hs. auto. }
+  destruct Hok as [[Hnd Hr] Hso].
+  pose proof (P_npv_cells_fixed cfg (c20_H st) (c20_cells o) Hc Hso Hr) as Hnpv.
+  unfold c20_step_reg.
+  destruct op; try discriminate Ht; injection Ht as ->; simpl;
+    unfold c20_on_vec, c20_on_any, c20_on_npv, c20_with_operand, c20_setslice, c20_npv_inplace, c20_inplace;
+    rewrite E, ?Hnpv;
+    repeat match goal with
+      | |- context [match c20_k ?o with _ => _ end] => destruct (c20_k o); simpl
+      | |- context [c20_operand ?a ?b ?c] => destruct (c20_operand a b c); simpl
+      | |- context [c20_setitem_index ?c ?k ?n ?i] => let Ei := fresh "Ei" in destruct (c20_setitem_index c k n i) eqn:Ei; simpl
+      | |- context [c20_slice_indices ?n ?x ?y ?z] => let Ei := fresh "Ei" in destruct (c20_slice_indices n x y z) eqn:Ei; simpl
+      | |- context [if ?c then _ else _] => destruct c eqn:?; simpl
+      end;
+    (split; [reflexivity|]); (split; [try reflexivity; try apply c20_write_length; try apply c20_write_all_length|]);
+    intros ax Hx; try reflexivity;
+    try (apply c20_write_all_frame; try assumption; intro Hin; apply Hx; eapply c20_slice_cells_in; eauto);
+    try (apply c20_read_write_neq; intro; subst ax; apply Hx; apply nth_In; solve [eapply c20_setitem_index_range; eauto]).
+  all: try (apply c20_read_write_neq; intro; subst ax; apply Hx; apply nth_In; solve [apply Nat.ltb_lt; assumption | assumption]).
+Qed.
+
+(* ------------------------------------------------------------------ scalar special cases (registerScalarCopyingDenseVectorMethods, __mul__ overload order) *)
+Lemma P_scalar_cases : forall cfg st r o, nth_error (c20_regs st) r = Some o -> c20_k o = C20_Vec ->
+  (c20_size o = 1 -> forall k q,
+     c20_step cfg st (C20_AddI r k) = c20_push_new st C20_Vec (c20_vadds (inject_Z k) (c20_vals st o)) /\
+     c20_step cfg st (C20_SubI r k) = c20_push_new st C20_Vec (c20_vsubs (inject_Z k) (c20_vals st o)) /\
+     c20_step cfg st (C20_RAddI r k) = c20_push_new st C20_Vec (map (fun x => c20_qadd (inject_Z k) x) (c20_vals st o)) /\
+     c20_step cfg st (C20_RSubI r k) = c20_push_new st C20_Vec (map (fun x => c20_qsub (inject_Z k) x) (c20_vals st o)) /\
+     c20_step cfg st (C20_AddF r q) = c20_push_new st C20_Vec (c20_vadds q (c20_vals st o)) /\
+     c20_step cfg st (C20_SubF r q) = c20_push_new st C20_Vec (c20_vsubs q (c20_vals st o)) /\
+     c20_step cfg st (C20_RAddF r q) = c20_push_new st C20_Vec (map (fun x => c20_qadd q x) (c20_vals st o)) /\
+     c20_step cfg st (C20_RSubF r q) = c20_push_new st C20_Vec (map (fun x => c20_qsub q x) (c20_vals st o)) /\
+     c20_step cfg st (C20_MulI r k) = (st, C20_ObsScalar (c20_dot (c20_vals st o) [inject_Z k])) /\
+     c20_step cfg st (C20_RMulI r k) = (st, C20_ObsScalar (c20_dot (c20_vals st o) [inject_Z k]))) /\
+  (c20_size o <> 1 -> forall k q,
+     c20_step cfg st (C20_AddI r 0) = (st, C20_ObsAlias r) /\ c20_step cfg st (C20_SubI r 0) = (st, C20_ObsAlias r) /\
+     c20_step cfg st (C20_RAddI r 0) = (st, C20_ObsAlias r) /\
+     c20_step cfg st (C20_RSubI r 0) = c20_push_new st C20_Vec (c20_vneg (c20_vals st o)) /\
+     (k <> 0%Z -> c20_step cfg st (C20_AddI r k) = (st, C20_ObsExc C20_ValueError) /\ c20_step cfg st (C20_SubI r k) = (st, C20_ObsExc C20_ValueError) /\
+                  c20_step cfg st (C20_RAddI r k) = (st, C20_ObsExc C20_ValueError) /\ c20_step cfg st (C20_RSubI r k) = (st, C20_ObsExc C20_ValueError)) /\
+     c20_step cfg st (C20_AddF r q) = (st, C20_ObsExc C20_TypeError) /\ c20_step cfg st (C20_RSubF r q) = (st, C20_ObsExc C20_TypeError) /\
+     c20_step cfg st (C20_MulI r k) = c20_push_new st C20_Vec (c20_vscale (inject_Z k) (c20_vals st o)) /\
+     c20_step cfg st (C20_RMulI r k) = c20_push_new st C20_Vec (c20_vscale (inject_Z k) (c20_vals st o))).
+Proof.
+  intros cfg st r o E Hk. split.
+  - intros H1 k q. simpl. unfold c20_on_vec. rewrite E, Hk, H1. simpl. repeat split; reflexivity.
+  - intros H1 k q. simpl. unfold c20_on_vec. rewrite E, Hk.
+    destruct (Nat.eqb_spec (c20_size o) 1) as [|_]; [contradiction|].
+    change c20_param_scalar_neutral with 0%Z. change (c20_exc_of_code c20_param_scalar_exc) with C20_ValueError. simpl.
+    split; [reflexivity|]. split; [reflexivity|]. split; [reflexivity|]. split; [reflexivity|].
+    split; [|repeat split; reflexivity].
+    intros Hk0. destruct (Z.eqb_spec k 0); [contradiction|]. repeat split; reflexivity.
+Qed.
+
+(* v.copy() = type(v)(v) once fix 5aaab64 is in (cfg_copy_self); before it returned the zero vector *)
+Lemma P_copy_method : forall cfg st r, cfg_copy_self cfg = true ->
+  c20_step cfg st (C20_CopyMeth r) = c20_step cfg st (C20_CopyCtor r).
+Proof.
+  intros cfg st r Hc. simpl. unfold c20_on_any. destruct (nth_error (c20_regs st) r) as [o|]; auto.
+  rewrite Hc. destruct o as [[|] cells]; reflexivity.
+Qed.
+
+Lemma P_copy_method_refuted : exists st r,
+  c20_wf st /\ c20_step c20_cfg_current st (C20_CopyMeth r) <> c20_step c20_cfg_current st (C20_CopyCtor r).
+Proof.
+  exists {| c20_H := [9#1]%Q; c20_regs := [{| c20_k := C20_Vec; c20_cells := [0] |}] |}, 0. split.
+  - constructor; [|constructor]. split; simpl; repeat constructor. simpl; tauto.
+  - vm_compute. intro Hx. discriminate Hx.
+Qed.
+
+(* ------------------------------------------------------------------ slices: v[::-1] is the reversal; a slice shares *)
+Lemma c20_rev_seq_nth : forall n k, k < n -> nth k (rev (seq 0 n)) 0 = n - 1 - k.
+Proof.
+  intros n k Hk. rewrite rev_nth by (rewrite seq_length; lia). rewrite seq_length. rewrite seq_nth by lia. lia.
+Qed.
+
+Lemma P_slice_reverse : forall n, c20_slice_indices n None None (Some (-1)%Z) = C20_Ok (rev (seq 0 n)).
+Proof.
+  intros n. unfold c20_slice_indices. change (-1 =? 0)%Z with false. change (-1 <? 0)%Z with true. cbv iota. f_equal.
+  change (- -1)%Z with 1%Z. rewrite Z.div_1_r.
+  assert (El : Z.to_nat (if (-1 <? Z.of_nat n - 1)%Z then Z.of_nat n - 1 - -1 - 1 + 1 else 0)%Z = n)
+    by (destruct (Z.ltb_spec (-1) (Z.of_nat n - 1)); lia).
+  rewrite El. apply nth_ext with (d := 0) (d' := 0).
+  - now rewrite map_length, seq_length, rev_length, seq_length.
+  - intros k Hk. rewrite map_length, seq_length in Hk.
+    rewrite (nth_indep _ 0 (Z.to_nat (Z.of_nat n - 1 + Z.of_nat 0 * -1))) by (rewrite map_length, seq_length; lia).
+    rewrite (map_nth (fun k0 : nat => Z.to_nat (Z.of_nat n - 1 + Z.of_nat k0 * -1))). rewrite seq_nth by lia.
+    rewrite c20_rev_seq_nth by lia. lia.
+Qed.
+
+Lemma P_slice_shares : forall cfg st r o a b c idx, nth_error (c20_regs st) r = Some o ->
+  c20_slice_indices (c20_size o) a b c = C20_Ok idx ->
+  let v := {| c20_k := C20_Arr; c20_cells := map (fun j => nth j (c20_cells o) 0) idx |} in
+  c20_step cfg st (C20_Slice r a b c) =
+    ({| c20_H := c20_H st; c20_regs := c20_regs st ++ [v] |}, C20_ObsObj C20_Arr (map (fun j => nth j (c20_vals st o) 0%Q) idx)) /\
+  c20_view_of v o.
+Proof.
+  intros cfg st r o a b c idx E Ei v. split.
+  - simpl. unfold c20_on_any. rewrite E, Ei. unfold c20_push_shared. f_equal. f_equal.
+    unfold c20_read_all, c20_vals. rewrite map_map. apply map_ext_in. intros j Hj.
+    apply P_slice_range in Ei as [_ Hr]. rewrite Forall_forall in Hr. symmetry. apply c20_nth_read_all. now apply Hr.
+  - intros x Hx. eapply c20_slice_cells_in; eauto.
+Qed.
+
+(* ------------------------------------------------------------------ TupleVector: rejections and assignment *)
+Lemma P_tuple_reject : forall (x : list c20_tval),
+  (forall i, (i < 0)%Z -> c20_tv_getitem x i = C20_Exc C20_TypeError /\ forall v, c20_tv_setitem x i v = C20_Exc C20_TypeError) /\
+  (forall i v, (Z.of_nat (length x) <= i)%Z -> c20_tv_setitem x i v = C20_Exc C20_IndexError) /\
+  (forall i v, (0 <= i < Z.of_nat (length x))%Z -> c20_tv_cast (c20_tv_type (nth (Z.to_nat i) x (C20_TInt 0))) v = None ->
+     c20_tv_setitem x i v = C20_Exc C20_RuntimeError) /\
+  (forall y, c20_tv_assign x y = y) /\
+  (forall i z, c20_tv_cast C20_TyDouble (C20_TInt z) = Some (C20_TFloat (inject_Z z)) /\ c20_tv_cast C20_TyInt (C20_TFloat i) = None).
+Proof.
+  intros x. repeat split; intros; unfold c20_tv_getitem, c20_tv_setitem, c20_cpp_index.
+  - destruct (Z.ltb_spec i 0); [reflexivity|lia].
+  - destruct (Z.ltb_spec i 0); [reflexivity|lia].
+  - destruct (Z.ltb_spec i 0); [lia|]. destruct (Z.ltb_spec i (Z.of_nat (length x))); [lia|reflexivity].
+  - destruct (Z.ltb_spec i 0); [lia|]. destruct (Z.ltb_spec i (Z.of_nat (length x))); [|lia]. now rewrite H0.
+Qed.
+
+(* the literals re-read from the sources are the ones the theorems are about *)
+Lemma P_params : c20_exc_of_code c20_param_getitem_exc = C20_IndexError /\ c20_exc_of_code c20_param_setitem_exc = C20_IndexError /\
+  c20_exc_of_code c20_param_buffer_format_exc = C20_ValueError /\ c20_exc_of_code c20_param_buffer_ndim_exc = C20_ValueError /\
+  c20_param_buffer_ndim = 1 /\ c20_exc_of_code c20_param_scalar_exc = C20_ValueError /\ c20_param_scalar_neutral = 0%Z /\
+  c20_param_neg_factor = (-1)%Z.
+Proof. repeat split; reflexivity. Qed.
+
+(* ------------------------------------------------------------------ DynamicVector wrapper, comparison, entry-wise arithmetic, norms *)
+Lemma P_dyn_index : forall n i, c20_dyn_index n i = c20_index_res n i.
+Proof.
+  intros n i. rewrite <- P_np_index. unfold c20_dyn_index, c20_np_index, c20_cpp_index.
+  destruct (Z.ltb_spec i 0).
+  - destruct (Z.ltb_spec (i + Z.of_nat n) 0); simpl; [reflexivity|].
+    destruct (Z.ltb_spec (i + Z.of_nat n) (Z.of_nat n)); destruct (Z.leb_spec (Z.of_nat n) (i + Z.of_nat n)); try lia; reflexivity.
+  - destruct (Z.ltb_spec i 0); [lia|]. simpl.
+    destruct (Z.ltb_spec i (Z.of_nat n)); destruct (Z.leb_spec (Z.of_nat n) i); try lia; reflexivity.
+Qed.
+
+Lemma P_dyn_index_refuted : exists n i j, c20_spec_index n i = Some j /\ c20_cpp_index n i <> c20_index_res n i.
+Proof. exists 3, (-1)%Z, 2. split; [reflexivity|]. vm_compute. discriminate. Qed.
+
+(* == / != : the entry loop of DenseVector::operator== decides entry-wise equality *)
+Lemma P_compare : forall a b, length a = length b ->
+  (c20_veq a b = true <-> Forall2 Qeq a b).
+Proof.
+  induction a as [|x a IH]; intros [|y b] Hl; simpl in *; try discriminate.
+  - split; [constructor|reflexivity].
+  - injection Hl as Hl. unfold c20_qeqb. rewrite andb_true_iff, Qeq_bool_iff, (IH b Hl). split.
+    + intros [H1 H2]. now constructor.
+    + intros H. inversion H; subst. auto.
+Qed.
+
+(* entry arithmetic is exact rational arithmetic; the vector operators are entry-wise *)
+Lemma P_arith_exact : forall a b : Q, (c20_qadd a b == a + b /\ c20_qsub a b == a - b /\ c20_qmul a b == a * b /\ c20_qdiv a b == a / b /\
+  c20_qabs a == Qabs.Qabs a)%Q.
+Proof. intros. unfold c20_qadd, c20_qsub, c20_qmul, c20_qdiv, c20_qabs. repeat split; apply Qreduction.Qred_correct. Qed.
+
+Lemma P_map2_nth : forall f a b i, i < length a -> i < length b ->
+  nth i (c20_map2 f a b) 0%Q = f (nth i a 0%Q) (nth i b 0%Q).
+Proof.
+  intros f. induction a as [|x a IH]; intros [|y b] [|i] Ha Hb; simpl in *; try lia; auto.
+  apply IH; lia.
+Qed.
+
+Lemma P_entrywise : forall a b i, i < length a -> i < length b ->
+  nth i (c20_vadd a b) 0%Q = c20_qadd (nth i a 0%Q) (nth i b 0%Q) /\
+  nth i (c20_vsub a b) 0%Q = c20_qsub (nth i a 0%Q) (nth i b 0%Q) /\
+  length (c20_vadd a b) = Nat.min (length a) (length b) /\
+  (forall q, nth i (c20_vscale q a) 0%Q = c20_qmul (nth i a 0%Q) q /\ length (c20_vscale q a) = length a).
+Proof.
+  intros a b i Ha Hb. unfold c20_vadd, c20_vsub, c20_vscale. repeat split; try (apply P_map2_nth; assumption).
+  - apply c20_map2_length.
+  - rewrite (nth_indep _ 0%Q ((fun x => c20_qmul x q) 0%Q)) by (rewrite map_length; lia).
+    apply (map_nth (fun x => c20_qmul x q)).
+  - apply map_length.
+Qed.
+
+(* two_norm2 is the scalar product of the vector with itself (same accumulation loop) *)
+Lemma c20_two_norm2_dot_gen : forall a acc, fold_left (fun acc x => c20_qadd acc (c20_qmul x x)) a acc = c20_dot_loop acc a a.
+Proof. induction a as [|x a IH]; intros acc; simpl; auto. Qed.
+Lemma P_two_norm2_dot : forall a, c20_two_norm2 a = c20_dot a a.
+Proof. intros. apply c20_two_norm2_dot_gen. Qed.
+
+(* infinity_norm bounds every entry and one_norm / two_norm2 are non-negative *)
+Lemma c20_qmax_ge : forall a b : Q, (a <= c20_qmax a b)%Q /\ (b <= c20_qmax a b)%Q.
+Proof.
+  intros a b. unfold c20_qmax. destruct (Qle_bool a b) eqn:E.
+  - apply Qle_bool_iff in E. split; [exact E|apply Qle_refl].
+  - split; [apply Qle_refl|]. destruct (Qlt_le_dec b a) as [H|H]; [now apply Qlt_le_weak|].
+    apply Qle_bool_iff in H. congruence.
+Qed.
+Lemma c20_inf_norm_gen : forall (a : list Q) (acc : Q), (acc <= fold_left (fun acc x => c20_qmax acc (c20_qabs x)) a acc)%Q /\
+  forall x, In x a -> (c20_qabs x <= fold_left (fun acc x => c20_qmax acc (c20_qabs x)) a acc)%Q.
+Proof.
+  induction a as [|y a IH]; intros acc; simpl.
+  - split; [apply Qle_refl|tauto].
+  - destruct (IH (c20_qmax acc (c20_qabs y))) as [H1 H2]. destruct (c20_qmax_ge acc (c20_qabs y)) as [G1 G2]. split.
+    + eapply Qle_trans; eauto.
+    + intros x [->|Hx]; [eapply Qle_trans; eauto|auto].
+Qed.
+Lemma P_inf_norm_bound : forall (a : list Q) x, In x a -> (Qabs.Qabs x <= c20_inf_norm a)%Q.
+Proof.
+  intros a x Hx. destruct (c20_inf_norm_gen a 0%Q) as [_ H]. specialize (H x Hx).
+  destruct (P_arith_exact x 0) as [_ [_ [_ [_ E]]]]. rewrite <- E. exact H.
 Qed.
